@@ -3,7 +3,8 @@
    and Proofs/ExprSemProofs.v (evaluation half).
 
    Parsing half.  `parse` is the Gallina port of parse_expr_bp / parse_ident / parse_subscript /
-   parse_kwargs / parse_filter / parse_test (Model/Pratt.v); its recursion-depth argument IS
+   parse_kwargs / parse_filter / parse_test / parse_array / parse_map / parse_list_comprehension
+   (Model/Pratt.v); its recursion-depth argument IS
    MAX_RECURSION_DEPTH; `print` inserts exactly the parentheses the DOCUMENTED precedence table
    (levels `lvl_bin`, `lvl_un`, checked against the re-extracted documentation rows by
    C02_doc_levels) demands; `gen_bp` is the binding-power table re-extracted from parser.rs on
@@ -31,46 +32,81 @@ Proof. exact doc_levels_match. Qed.
 Theorem C02_gen_bp_wf : wf_bp gen_bp = true /\ gen_rows_complete = true.
 Proof. exact gen_bp_wf. Qed.
 
-(* PARTIAL w.r.t. the full property grammar only in this: `printable` excludes array/map
-   literals and list comprehensions (their bracket structure is parsed by dedicated functions,
-   not by the binding-power loop; they are atoms for precedence and are covered by the
-   correspondence run).  Everything else — constants, variables, `.`/`?.`/`[]`/`?[` chains,
-   subscripts and slices `x[a:b:c]` on any base, unary `-`/`not`, the 17 infix operators, `not in`, `is`/`is not` tests and `|` filters
-   with keyword arguments, function calls, the ternary, parentheses anywhere — is covered, for
-   every well-formed binding-power table. *)
-Theorem C02_pratt_roundtrip_partial : forall bp, wf_bp bp = true ->
+(* The whole expression grammar of the property is covered: constants, variables,
+   `.`/`?.`/`[]`/`?[` chains, subscripts and slices `x[a:b:c]` on any base, unary `-`/`not`, the 17
+   infix operators, `not in`, `is`/`is not` tests and `|` filters with keyword arguments, function
+   calls, the ternary, parentheses anywhere, array literals `[a, ...b, c]` and map literals
+   `{k: v, ...m}` (any number of elements, spreads at any position, nested, empty, with or without a
+   trailing comma, literal-only ones folded into a constant as parse_array / parse_map do) and list
+   comprehensions `[e for x in xs]`, `[e for k, v in m if c]` — for every well-formed binding-power
+   table.  The literal forms are parsed by the ported dedicated loops (array_loop / map_loop /
+   parse_comp in Model/Pratt.v), elements at min_bp 0 one recursion level down, target and condition
+   of a comprehension at TERNARY_L_BP + 1 (printed parenthesised exactly when they are ternaries).
+   Side conditions are the parser's own limits and rules: `need` (MAX_RECURSION_DEPTH), `needb`
+   (MAX_NUM_LEFT_BRACKETS), `needa` (MAX_DIMENSION_ARRAY: nesting of array literals and
+   comprehensions through any other construct), and `printable`: no unary right operand of `~`,
+   `[,]` / `{,}` rejected, comprehension variables not reserved names, names not keywords.
+   Not in the model (assumption, see tools/propcfg/C02.py): MAX_EXPRESSION_DEPTH (the D11 repair:
+   more than 256 loop-built links on one spine are rejected by the real parser) and the inline
+   component call `<Name .../>`. *)
+Theorem C02_pratt_roundtrip : forall bp, wf_bp bp = true ->
   forall maxb maxdim s d c rest,
-  printable s = true -> need s <= d -> fst c + needb s <= maxb -> closerL rest = true ->
+  printable s = true -> need s <= d -> fst c + needb s <= maxb -> snd c + needa s <= maxdim ->
+  closerL rest = true ->
   parse bp maxb maxdim d c 0 (print s ++ rest) = Some (desugar s, rest).
 Proof. exact pratt_roundtrip_gen. Qed.
 
-(* the same, from the AST: the parser's grouping IS the documented grouping and associativity *)
-Theorem C02_pratt_roundtrip_ast_partial : forall bp, wf_bp bp = true ->
+(* the same, from the AST: the parser's grouping IS the documented grouping and associativity.
+   `embed` writes an AST as the surface tree without sugar or parentheses (a folded literal-only
+   container constant as the literal it was folded from); `normal e` says e is a tree the parser
+   can build: an EArr / EMap node has a non-constant or spread item (otherwise parse_array /
+   parse_map would have folded it) and a folded map constant has distinct keys (it is a HashMap). *)
+Theorem C02_pratt_roundtrip_ast : forall bp, wf_bp bp = true ->
   forall maxb maxdim e d c rest,
+  normal e = true ->
   printable (embed e) = true -> need (embed e) <= d -> fst c + needb (embed e) <= maxb ->
+  snd c + needa (embed e) <= maxdim ->
   closerL rest = true ->
   parse bp maxb maxdim d c 0 (print (embed e) ++ rest) = Some (e, rest).
 Proof. exact pratt_roundtrip_ast. Qed.
 
 (* instantiated at the current parser.rs: a top-level `{{ s }}` within the nesting limits *)
-Theorem C02_pratt_roundtrip_top_partial : forall s,
-  printable s = true -> need s <= top_depth -> needb s <= max_brackets ->
+Theorem C02_pratt_roundtrip_top : forall s,
+  printable s = true -> need s <= top_depth -> needb s <= max_brackets -> needa s <= max_dim ->
   parse_top gen_bp (print s ++ [TVarEnd]) = Some (desugar s).
 Proof. exact pratt_roundtrip_top. Qed.
 
-(* redundant parentheses and the `not in` / `is not` spellings never change the tree *)
-Theorem C02_pratt_decorations_partial : forall bp, wf_bp bp = true ->
+(* redundant parentheses, the `not in` / `is not` spellings and trailing commas never change the tree *)
+Theorem C02_pratt_decorations : forall bp, wf_bp bp = true ->
   forall maxb maxdim e s d c rest,
   desugar s = e ->
-  printable s = true -> need s <= d -> fst c + needb s <= maxb -> closerL rest = true ->
+  printable s = true -> need s <= d -> fst c + needb s <= maxb -> snd c + needa s <= maxdim ->
+  closerL rest = true ->
   parse bp maxb maxdim d c 0 (print s ++ rest) = Some (e, rest).
 Proof. exact pratt_roundtrip_decorated. Qed.
 
-Theorem C02_pratt_redundant_parens_partial : forall bp, wf_bp bp = true ->
+Theorem C02_pratt_redundant_parens : forall bp, wf_bp bp = true ->
   forall maxb maxdim s d c rest,
-  printable s = true -> S (need s) <= d -> fst c + needb s <= maxb -> closerL rest = true ->
+  printable s = true -> S (need s) <= d -> fst c + needb s <= maxb -> snd c + needa s <= maxdim ->
+  closerL rest = true ->
   parse bp maxb maxdim d c 0 (TLParen :: print s ++ TRParen :: rest) = Some (desugar s, rest).
 Proof. exact pratt_redundant_parens. Qed.
+
+(* `[a, b,]` is `[a, b]` and `{k: v,}` is `{k: v}` (non-empty literals; nested literals may carry
+   their own trailing commas through `printable`) *)
+Theorem C02_pratt_trailing_comma : forall bp, wf_bp bp = true ->
+  forall maxb maxdim d c rest,
+  (forall items, items <> [] ->
+     printable (SArr items false) = true -> need (SArr items false) <= d ->
+     fst c + needb (SArr items false) <= maxb -> snd c + needa (SArr items false) <= maxdim ->
+     closerL rest = true ->
+     parse bp maxb maxdim d c 0 (print (SArr items true) ++ rest) = Some (desugar (SArr items false), rest)) /\
+  (forall es, es <> [] ->
+     printable (SMap es false) = true -> need (SMap es false) <= d ->
+     fst c + needb (SMap es false) <= maxb -> snd c + needa (SMap es false) <= maxdim ->
+     closerL rest = true ->
+     parse bp maxb maxdim d c 0 (print (SMap es true) ++ rest) = Some (desugar (SMap es false), rest)).
+Proof. exact pratt_trailing_comma. Qed.
 
 (* ---------------------------------------------------------------- evaluation half
    `eval` (Spec/ExprSem.v) is the big-step evaluator written from the documentation; it is tied
@@ -140,9 +176,39 @@ Theorem C02_no_coercion : forall a b,
    forall g e, eval g e = Val a -> eval g (EUn UMinus e) = Err).
 Proof. exact no_coercion. Qed.
 
+(* list comprehensions (Spec/ExprSem.v, from "similar to the ones in Python ... syntax sugar for a
+   `for` loop"): over an array target the result is `map f (filter p target)` in order, where the
+   condition (when present) is evaluated for every element with the loop variable bound to it -
+   shadowing any outer variable of that name - and the element expression only for the elements
+   the condition keeps: for skipped elements it is not evaluated at all (it may be `throw(..)`) *)
+Theorem C02_comprehension_filter_map : forall g e v target cond l (f : value -> value) (p : value -> bool),
+  eval g target = Val (VArr l) ->
+  (forall x, In x l ->
+     match cond with
+     | Some c => exists cv, eval ((v, x) :: g) c = Val cv /\ is_truthy cv = p x
+     | None => p x = true
+     end) ->
+  (forall x, In x l -> p x = true -> eval ((v, x) :: g) e = Val (f x) /\ f x <> VUndef) ->
+  eval g (EComp e None v target cond) = Val (VArr (map f (filter p l))).
+Proof. exact comprehension_filter_map. Qed.
+
+(* an error in the condition / element for the first element is the result *)
+Theorem C02_comprehension_error : forall g e v target cond x r,
+  eval g target = Val (VArr (x :: r)) ->
+  (match cond with Some c => eval ((v, x) :: g) c = Err
+                 | None => eval ((v, x) :: g) e = Err end) ->
+  eval g (EComp e None v target cond) = Err.
+Proof. exact comprehension_error. Qed.
+
+Print Assumptions C02_comprehension_filter_map.
+Print Assumptions C02_comprehension_error.
 Print Assumptions C02_bp_matches_docs.
-Print Assumptions C02_pratt_roundtrip_partial.
-Print Assumptions C02_pratt_roundtrip_top_partial.
+Print Assumptions C02_pratt_roundtrip.
+Print Assumptions C02_pratt_roundtrip_ast.
+Print Assumptions C02_pratt_roundtrip_top.
+Print Assumptions C02_pratt_decorations.
+Print Assumptions C02_pratt_redundant_parens.
+Print Assumptions C02_pratt_trailing_comma.
 Print Assumptions C02_one_level_undefined.
 Print Assumptions C02_no_coercion.
 
@@ -173,6 +239,55 @@ Proof. vm_compute. repeat split; try reflexivity. repeat constructor. Qed.
 Example C02_ex_concat_unary :
   parse_top gen_bp (print (SBin OConcat (v_ "a") (SParen (SUn UMinus (v_ "b")))) ++ [TVarEnd]) = None.
 Proof. vm_compute. reflexivity. Qed.
+
+(* literals and comprehensions: spreads at every position, nesting, a trailing comma, a folded
+   literal-only array inside a map, a comprehension with key, ternary target (parenthesised by the
+   printer) and condition; all inside operators / a filter / a ternary *)
+Example C02_ex_literals :
+  let arr := SArr [(true, v_ "xs"); (false, SBin OPlus (v_ "a") (SConst (CInt 1)));
+                   (false, SArr [(false, SConst (CInt 1)); (false, SConst (CInt 2))] true); (true, v_ "ys")] true in
+  let mp := SMap [(None, v_ "base"); (Some (MKStr (s2l "k")), STern (v_ "c") (v_ "a") (v_ "b"));
+                  (Some (MKInt 3%Z), arr); (Some (MKBool true), SMap [] false); (None, v_ "more")] false in
+  let cmp := SComp (SBin OMul (v_ "x") (v_ "x")) (Some (s2l "k")) (s2l "x")
+                   (STern (v_ "c") (v_ "m") mp) (Some (SBin OGt (v_ "x") (SConst (CInt 0)))) in
+  let s := STern (SBin OIn (v_ "a") arr) (SFilter cmp (s2l "length") []) (SItem mp (SConst (CStr (s2l "k"))) false) in
+  printable s = true /\ (need s <= top_depth) /\ (needb s <= max_brackets) /\ (needa s <= max_dim) /\
+  (parse_top gen_bp (print s ++ [TVarEnd]) = Some (desugar s)) /\
+  (desugar (SArr [(false, SConst (CInt 1)); (false, SConst (CInt 2))] true) = EConst (CArr [CInt 1; CInt 2])).
+Proof. vm_compute. repeat split; try reflexivity; repeat constructor. Qed.
+
+(* from the AST, with folded constants inside: `a in [1, "x"] and {"k": [2], true: none}[k]` *)
+Example C02_ex_ast_folded :
+  let e := EBin OAnd (EBin OIn (EVar (s2l "a")) (EConst (CArr [CInt 1; CStr (s2l "x")])))
+                     (EItem (EConst (CMap [(MKStr (s2l "k"), CArr [CInt 2]); (MKBool true, CNone)])) (EVar (s2l "k")) false) in
+  normal e = true /\ printable (embed e) = true /\
+  parse_top gen_bp (print (embed e) ++ [TVarEnd]) = Some e.
+Proof. vm_compute. repeat split; reflexivity. Qed.
+
+(* the parser's own rules: `[,]` is rejected, a third array dimension is rejected, a reserved
+   comprehension variable is rejected *)
+Example C02_ex_literal_limits :
+  parse_top gen_bp [TLBracket; TComma; TRBracket; TVarEnd] = None
+  /\ printable (SArr [] true) = false
+  /\ (let a3 := SArr [(false, SArr [(false, SArr [(false, v_ "a")] false)] false)] false in
+      needa a3 = 3 /\ parse_top gen_bp (print a3 ++ [TVarEnd]) = None)
+  /\ (let c := SComp (v_ "x") None (s2l "loop") (v_ "xs") None in
+      printable c = false /\ parse_top gen_bp (print c ++ [TVarEnd]) = None).
+Proof. vm_compute. repeat split; reflexivity. Qed.
+
+(* `[x * x for x in [1, 2, 3] if x > 1]` is `[4, 9]` with an outer x untouched; the element is not
+   evaluated for skipped items; spreads splice a comprehension's result *)
+Example C02_ex_comprehension :
+  let xs := EConst (CArr [CInt 1; CInt 2; CInt 3]) in
+  let x := EVar (s2l "x") in
+  eval [(s2l "x", VInt I64 100%Z)]
+       (EArr [(false, EComp (EBin OMul x x) None (s2l "x") xs (Some (EBin OGt x (EConst (CInt 1))))); (false, x)])
+    = Val (VArr [VArr [VInt I64 4%Z; VInt I64 9%Z]; VInt I64 100%Z])
+  /\ eval [] (EComp (ECall (s2l "throw") []) None (s2l "x") xs (Some (EConst (CBool false)))) = Val (VArr [])
+  /\ eval [] (EComp (ECall (s2l "throw") []) None (s2l "x") xs None) = Err
+  /\ eval [] (EArr [(true, EComp x None (s2l "x") xs None); (false, EConst (CInt 0))])
+    = Val (VArr [VInt I64 1%Z; VInt I64 2%Z; VInt I64 3%Z; VInt I64 0%Z]).
+Proof. vm_compute. repeat split; reflexivity. Qed.
 
 (* evaluation: `false and throw(..)` is false, `throw(..) if none else 2` is 2, `nope or 1` is 1,
    `nope.x or 1` is an error *)
